@@ -47,6 +47,7 @@ def is_load(callee):
 
 
 PASS_THROUGH = ("::deref", "::as_ref", "::borrow", "::clone")
+OPTION_PREDICATES = ("is_some_and", "map_or", "is_none_or")
 
 
 def interp(facts, body, v, depth=0):
@@ -59,18 +60,20 @@ def interp(facts, body, v, depth=0):
         for s in body.stmts(b):
             if s["k"] != "assign" or s["pl"].get("p"):
                 continue
+            if s["rv"]["k"] == "agg" and s["rv"].get("ak") == "closure":
+                env[s["pl"]["l"]] = ("closure", s["rv"].get("name"))
+                continue
             env[s["pl"]["l"]] = ev_rv(s["rv"], env)
         t = body.term(b)
         k = t["k"]
         if k == "goto":
             b = t["t"]
         elif k == "return":
-            return env.get(0, U)
+            return _as_int(env.get(0, U))
         elif k == "switch":
-            d = ev_op(t["d"], env)
+            d = _as_int(ev_op(t["d"], env))
             if d is U:
                 return U
-            d = int(d)
             nxt = None
             for (val, tb) in t["vals"]:
                 if int(val) == d:
@@ -82,6 +85,12 @@ def interp(facts, body, v, depth=0):
                 val = v
             elif callee in facts.bodies and facts.bodies[callee].crate == "nomt":
                 val = interp(facts, facts.bodies[callee], v, depth + 1)
+            elif callee.rsplit("::", 1)[-1] in OPTION_PREDICATES and callee.startswith("core::option::Option"):
+                # Option::is_some_and(opt, f) / map_or(opt, default, f) / is_none_or(opt, f): the value in the Some case is f(x)
+                val = U
+                clo = ev_op(t["args"][-1], env) if t["args"] else U
+                if isinstance(clo, tuple) and clo[0] == "closure" and clo[1] in facts.bodies:
+                    val = interp(facts, facts.bodies[clo[1]], v, depth + 1)
             else:
                 val = U
             if not t["dest"].get("p"):
@@ -112,22 +121,25 @@ def ev_op(op, env):
     return U
 
 
+def _as_int(x):
+    return U if (x is U or isinstance(x, tuple)) else int(x)
+
+
 def ev_rv(rv, env):
     k = rv["k"]
     if k in ("use", "cast"):
         return ev_op(rv["op"], env)
     if k == "bin":
-        a, b = ev_op(rv["a"], env), ev_op(rv["b"], env)
+        a, b = _as_int(ev_op(rv["a"], env)), _as_int(ev_op(rv["b"], env))
         if a is U or b is U:
             return U
-        a, b = int(a), int(b)
         op = rv["op"]
         table = {"Eq": a == b, "Ne": a != b, "Lt": a < b, "Le": a <= b, "Gt": a > b, "Ge": a >= b, "BitAnd": a & b, "BitOr": a | b, "BitXor": a ^ b}
         if op in table:
             return int(table[op])
         return U
     if k == "un":
-        a = ev_op(rv.get("a") or rv.get("op"), env) if isinstance(rv.get("a") or rv.get("op"), dict) else U
+        a = _as_int(ev_op(rv.get("a") or rv.get("op"), env)) if isinstance(rv.get("a") or rv.get("op"), dict) else U
         if a is U:
             return U
         if rv.get("op") == "Not" or rv.get("un") == "Not":
@@ -167,9 +179,9 @@ def eval_cond(facts, body, op, v, depth=0):
             t = r.obj
             if is_load(callee):
                 vals.add(v)
-            elif callee.endswith("::map_or") and t is not None and len(t["args"]) == 3:
+            elif callee.rsplit("::", 1)[-1] in OPTION_PREDICATES and callee.startswith("core::option::Option") and t is not None and len(t["args"]) >= 2:
                 # Option::map_or(opt, default, f): the Some case is f(x); the None case (no parent at all) is the default
-                clo = [x for x in trace(body, t["args"][2]) if x.kind == "agg" and x.obj is not None and x.obj.get("ak") == "closure"]
+                clo = [x for x in trace(body, t["args"][-1]) if x.kind == "agg" and x.obj is not None and x.obj.get("ak") == "closure"]
                 if len(clo) != 1 or clo[0].obj.get("name") not in facts.bodies:
                     return U
                 x = interp(facts, facts.bodies[clo[0].obj["name"]], v)
@@ -245,12 +257,12 @@ def p2(facts, rep):
             short = body.id.split("::", 1)[1]
             n += 1
             if m == "store":
-                ok = body.id == STATUS + "::commit" and t["args"][1].get("k") == "const" and int(t["args"][1].get("int", -1)) == consts.get("COMMITTED")
-                rep.check(ok, "P2", short, "store", "the overlay status word is stored outside OverlayStatus::commit, or with a value other than COMMITTED", site=t.get("ln"), detail="OverlayStatus::commit stores COMMITTED")
+                ok = body.id.startswith(STATUS + "::") and t["args"][1].get("k") == "const" and int(t["args"][1].get("int", -1)) == consts.get("COMMITTED")
+                rep.check(ok, "P2", short, "store", "the overlay status word is stored outside the methods of OverlayStatus, or with a value other than COMMITTED", site=t.get("ln"), detail="a method of OverlayStatus stores COMMITTED")
             elif m == "compare_exchange":
                 a = [x.get("int") for x in t["args"][1:3]]
-                ok = body.id == STATUS + "::drop" and a[0] is not None and a[1] is not None and int(a[0]) == consts.get("LIVE") and int(a[1]) == consts.get("DROPPED")
-                rep.check(ok, "P2", short, "compare_exchange", "the overlay status word is changed by a compare_exchange other than LIVE -> DROPPED in OverlayStatus::drop: a committed overlay could be un-committed, or a dropped one revived", site=t.get("ln"), detail="OverlayStatus::drop: LIVE -> DROPPED only")
+                ok = body.id.startswith(STATUS + "::") and a[0] is not None and a[1] is not None and int(a[0]) == consts.get("LIVE") and int(a[1]) == consts.get("DROPPED")
+                rep.check(ok, "P2", short, "compare_exchange", "the overlay status word is changed by a compare_exchange other than LIVE -> DROPPED inside a method of OverlayStatus: a committed overlay could be un-committed, or a dropped one revived", site=t.get("ln"), detail="a method of OverlayStatus: LIVE -> DROPPED only")
             else:
                 rep.violation("P2", short, m, "the overlay status word is modified with `%s` outside the listed transitions (commit: -> COMMITTED, drop: LIVE -> DROPPED)" % m, site=t.get("ln"))
     return n
